@@ -8,6 +8,9 @@ package main
 
 import (
 	"crypto/sha256"
+	"io"
+	"strings"
+	"go/types"
 	"encoding/json"
 	"fmt"
 	"os"
@@ -23,17 +26,28 @@ type namedPos struct {
 }
 
 type fnNames struct {
-	Shape  string     `json:"shape"`
-	Params []string   `json:"params"`
-	Named  []namedPos `json:"named"`
+	Shape  string     `json:"shape,omitempty"`
+	Params []string   `json:"params,omitempty"`
+	Free   []string   `json:"free,omitempty"`
+	Named  []namedPos `json:"named,omitempty"`
+	// Sig: the names in the declared signature (receiver first, "" when there is none), with SigT the parameter
+	// types; kept also for interface methods, which have no body
+	Sig  []string `json:"sig,omitempty"`
+	SigT string   `json:"sigt,omitempty"`
 }
 
 func namesFile() string { return filepath.Join(verifDir, "baseline", "names.json") }
 
 func shapeOf(fn *ssa.Function) string {
-	h := sha256.New()
+	hh := sha256.New()
+	var h io.Writer = hh
+	if d := os.Getenv("GOVC_DUMP_SHAPE"); d != "" && strings.Contains(fn.String(), d) {
+		f, _ := os.Create("/tmp/shape_" + fmt.Sprint(os.Getpid()) + ".txt")
+		defer f.Close()
+		h = io.MultiWriter(hh, f)
+	}
 	for _, p := range fn.Params {
-		fmt.Fprintf(h, "P %s\n", p.Type())
+		fmt.Fprintf(h, "P %s\n", canonType(p.Type()))
 	}
 	for _, b := range fn.Blocks {
 		fmt.Fprintf(h, "B %d %d\n", b.Index, len(b.Succs))
@@ -47,24 +61,27 @@ func shapeOf(fn *ssa.Function) string {
 					cn = cc.Method.Name()
 				} else if sc := cc.StaticCallee(); sc != nil {
 					cn = sc.Name()
+					if i := strings.Index(cn, "["); i > 0 {
+						cn = cn[:i]
+					}
 				}
-				fmt.Fprintf(h, "call %s %s\n", cn, x.Type())
+				fmt.Fprintf(h, "call %s %s\n", cn, canonType(x.Type()))
 			case *ssa.BinOp:
-				fmt.Fprintf(h, "bin %s %s\n", x.Op, x.Type())
+				fmt.Fprintf(h, "bin %s %s\n", x.Op, canonType(x.Type()))
 			case *ssa.UnOp:
-				fmt.Fprintf(h, "un %s %s\n", x.Op, x.Type())
+				fmt.Fprintf(h, "un %s %s\n", x.Op, canonType(x.Type()))
 			case *ssa.FieldAddr:
-				fmt.Fprintf(h, "fa %d %s\n", x.Field, x.Type())
+				fmt.Fprintf(h, "fa %d %s\n", x.Field, canonType(x.Type()))
 			case *ssa.Field:
-				fmt.Fprintf(h, "f %d %s\n", x.Field, x.Type())
+				fmt.Fprintf(h, "f %d %s\n", x.Field, canonType(x.Type()))
 			case ssa.Value:
-				fmt.Fprintf(h, "%T %s\n", in, x.Type())
+				fmt.Fprintf(h, "%T %s\n", in, canonType(x.Type()))
 			default:
 				fmt.Fprintf(h, "%T\n", in)
 			}
 		}
 	}
-	return fmt.Sprintf("%x", h.Sum(nil))[:24]
+	return fmt.Sprintf("%x", hh.Sum(nil))[:24]
 }
 
 func namesOf(fn *ssa.Function) *fnNames {
@@ -72,11 +89,17 @@ func namesOf(fn *ssa.Function) *fnNames {
 	for _, p := range fn.Params {
 		n.Params = append(n.Params, p.Name())
 	}
+	for _, fv := range fn.FreeVars {
+		n.Free = append(n.Free, fv.Name())
+	}
 	for _, b := range fn.Blocks {
 		for i, in := range b.Instrs {
 			switch x := in.(type) {
 			case *ssa.DebugRef:
 				if obj := x.Object(); obj != nil {
+					if v, ok := obj.(*types.Var); !ok || v.IsField() || (v.Pkg() != nil && v.Parent() == v.Pkg().Scope()) {
+						continue // only local variables and parameters are subject to renaming here
+					}
 					n.Named = append(n.Named, namedPos{b.Index, i, obj.Name()})
 				}
 			case *ssa.Phi:
@@ -130,6 +153,9 @@ func renamesFor1(key string, fn *ssa.Function) (map[string]string, []string) {
 	}
 	cur := namesOf(fn)
 	if cur.Shape != base.Shape || len(cur.Named) != len(base.Named) || len(cur.Params) != len(base.Params) {
+		if traceNames {
+			fmt.Fprintf(os.Stderr, "NAMES %s: shape %s vs %s, named %d vs %d\n", key, cur.Shape, base.Shape, len(cur.Named), len(base.Named))
+		}
 		return nil, nil
 	}
 	ren := map[string]string{}
@@ -149,6 +175,15 @@ func renamesFor1(key string, fn *ssa.Function) (map[string]string, []string) {
 			delete(ren, k)
 		}
 	}
+	if len(base.Free) == len(cur.Free) {
+		for i, o := range base.Free {
+			if o != cur.Free[i] {
+				if _, have := ren[o]; !have {
+					ren[o] = cur.Free[i]
+				}
+			}
+		}
+	}
 	return ren, base.Params
 }
 
@@ -157,7 +192,11 @@ func saveBaseNames(fns map[string]*ssa.Function) {
 	tab := loadBaseNames()
 	for k, fn := range fns {
 		if fn != nil && len(fn.Blocks) > 0 {
-			tab[k] = namesOf(fn)
+			nn := namesOf(fn)
+			if old := tab[k]; old != nil {
+				nn.Sig, nn.SigT = old.Sig, old.SigT
+			}
+			tab[k] = nn
 		}
 	}
 	keys := make([]string, 0, len(tab))
@@ -172,4 +211,125 @@ func saveBaseNames(fns map[string]*ssa.Function) {
 	b, _ := json.Marshal(out)
 	os.MkdirAll(filepath.Dir(namesFile()), 0o755)
 	os.WriteFile(namesFile(), b, 0o644)
+}
+
+func sigNames(f *types.Func) ([]string, string) {
+	sig, ok := f.Type().(*types.Signature)
+	if !ok {
+		return nil, ""
+	}
+	names := []string{""}
+	if r := sig.Recv(); r != nil {
+		names[0] = r.Name()
+	}
+	t := ""
+	for i := 0; i < sig.Params().Len(); i++ {
+		names = append(names, sig.Params().At(i).Name())
+		t += canonType(sig.Params().At(i).Type()) + ";"
+	}
+	return names, t
+}
+
+// baseSigFor: the baseline's declared names (receiver first) of a contract's function if its parameter types are unchanged
+func baseSigFor(key string, f *types.Func) []string {
+	base := loadBaseNames()[key]
+	if base == nil || f == nil || len(base.Sig) == 0 {
+		if traceNames {
+			fmt.Fprintf(os.Stderr, "NAMES sig %s: no baseline\n", key)
+		}
+		return nil
+	}
+	cur, t := sigNames(f)
+	if t != base.SigT || len(cur) != len(base.Sig) {
+		if traceNames {
+			fmt.Fprintf(os.Stderr, "NAMES sig %s: %q vs %q\n", key, t, base.SigT)
+		}
+		return nil
+	}
+	return base.Sig
+}
+
+// saveBaseSigs records the declared names of every contract's function
+func saveBaseSigs(e *Engine) {
+	tab := loadBaseNames()
+	for k, c := range e.contracts {
+		if c.Obj == nil {
+			continue
+		}
+		ent := tab[k]
+		if ent == nil {
+			ent = &fnNames{}
+			tab[k] = ent
+		}
+		ent.Sig, ent.SigT = sigNames(c.Obj)
+	}
+}
+
+func init() {
+	if os.Getenv("GOVC_TRACE_NAMES") != "" {
+		traceNames = true
+	}
+}
+
+var traceNames bool
+
+// canonType: a type's text without the parameter names of function types (renaming those is not a change of type)
+func canonType(t types.Type) string {
+	switch x := t.(type) {
+	case *types.Signature:
+		s := "func("
+		for i := 0; i < x.Params().Len(); i++ {
+			if i > 0 {
+				s += ","
+			}
+			s += canonType(x.Params().At(i).Type())
+		}
+		if x.Variadic() {
+			s += "..."
+		}
+		s += ")("
+		for i := 0; i < x.Results().Len(); i++ {
+			if i > 0 {
+				s += ","
+			}
+			s += canonType(x.Results().At(i).Type())
+		}
+		return s + ")"
+	case *types.Named:
+		if ta := x.TypeArgs(); ta != nil && ta.Len() > 0 {
+			s := x.Obj().Name()
+			if x.Obj().Pkg() != nil {
+				s = x.Obj().Pkg().Path() + "." + s
+			}
+			s += "["
+			for i := 0; i < ta.Len(); i++ {
+				if i > 0 {
+					s += ","
+				}
+				s += canonType(ta.At(i))
+			}
+			return s + "]"
+		}
+		return t.String()
+	case *types.Pointer:
+		return "*" + canonType(x.Elem())
+	case *types.Slice:
+		return "[]" + canonType(x.Elem())
+	case *types.Array:
+		return fmt.Sprintf("[%d]%s", x.Len(), canonType(x.Elem()))
+	case *types.Map:
+		return "map[" + canonType(x.Key()) + "]" + canonType(x.Elem())
+	case *types.Chan:
+		return "chan " + canonType(x.Elem())
+	case *types.Tuple:
+		s := "("
+		for i := 0; i < x.Len(); i++ {
+			if i > 0 {
+				s += ","
+			}
+			s += canonType(x.At(i).Type())
+		}
+		return s + ")"
+	}
+	return t.String()
 }
